@@ -26,6 +26,8 @@ type Specs struct {
 	DefaultOpaque map[string][]string // package name -> default props: functions without a block are opaque contracts
 	Symbols       map[string]map[string]string // package -> grammar symbol -> invariant over v (a yySymType)
 	invFieldCache map[string]map[string]bool
+	Every         map[string]*FuncSpec // "pkg.(*T).*" -> clauses merged into every method's contract
+	everyMerged   map[*FuncSpec]bool
 }
 
 type FuncSpec struct {
@@ -201,6 +203,15 @@ func (S *Specs) parseFile(file, text string) {
 				S.errf(file, lineNo, "duplicate contract for %s", key)
 			}
 			S.Funcs[key] = cur
+		case "every":
+			// every (*T).*: clauses added to the contract of every method of T,
+			// whether or not it has a block of its own
+			key := pkg + ".every " + strings.TrimSpace(rest)
+			cur = &FuncSpec{Key: key, File: file, Line: lineNo, Props: defProps}
+			if S.Every == nil {
+				S.Every = map[string]*FuncSpec{}
+			}
+			S.Every[pkg+"."+strings.TrimSpace(rest)] = cur
 		case "func", "extern":
 			name := rest
 			var params []string
